@@ -57,6 +57,8 @@ public:
 
   // --- scenario controls -------------------------------------------------
   bool tf_same_step = false;
+  bool tf_loop = false;           // engine total forces include Colvars' own forces of the step they refer to
+  std::vector<cvm::rvector> last_applied;  // by engine atom id
   bool quiet = true;
   int n_natoms = 0;               // atoms the engine knows about (ids 0..n-1)
   std::vector<double> engine_mass, engine_charge;
